@@ -910,6 +910,9 @@ def history_search(ctx, rng, budget):
             ratio = np.where(mask, np.abs(got - R) / TOL, 0.0)
         ratio = np.where(np.isfinite(ratio), ratio, np.inf)
         worst[tag.split(':')[0] + '_history'] = max(worst.get(tag.split(':')[0] + '_history', 0.0), float(ratio.max()) if ratio.size else 0.0)
+        mod = tag.split(':')[0]
+        if ratio.size and ratio.max() > 1 and sum(1 for h in hits if h.data.get('module') == mod) >= 4:
+            return          # enough distinct replays for this module; further failing histories are not listed
         if ratio.size and ratio.max() > 1:
             ix = np.unravel_index(int(np.argmax(ratio)), ratio.shape)
             g, r_, t = float(got[ix]), float(R[ix]), float(TOL[ix])
@@ -919,7 +922,7 @@ def history_search(ctx, rng, budget):
             hits.append(Hit('cached-element-equals-defining-integral', 'C09:history:%s:%s' % (tag, cls),
                             w + ': returned %r, defining integral %r (|diff| %.3g > tol %.3g; %d of %d elements differ)'
                             % (g, r_, abs(g - r_), t, int((ratio > 1).sum()), int(mask.sum())),
-                            snip, dict(history=lines, element=elem_expr(ix), value=g, quadrature=r_, tol=t)))
+                            snip, dict(module=mod, history=lines, element=elem_expr(ix), value=g, quadrature=r_, tol=t)))
 
     def histories(clean, ops, obs, k_triples):
         """ordered pairs (memory and through the disk) and a sample of triples"""
